@@ -162,6 +162,7 @@ def plan(prop, tier):
     q = tier == 'quick'
     if prop == 'C06':
         disc = [dict(gen_bfs('T', 2, extra='LockExtra'), trace='Trace_LockDisc', name='lockdiscT'), dict(gen_bfs('C', 1 if q else 2, extra='LockExtra'), trace='Trace_LockDisc', name='lockdiscC')]
+        disc.append(subF(gen_bfs('F', 2, sample=0.08 if q else 0.5, module='MC_RouterF', name='callerslices')))   # a call never writes into the middleware slice its caller still owns
         return {'stages': lock_stages(q) + disc + [conc_stage('c06', 4, 6 if q else 60, 3, 20 if q else 60)], 'rule': RULE_CONC, 'assumptions': ASSUME_CONC}
     if prop == 'C07':
         return {'stages': globals_stages(q) + group_stages(2, 'C13', 0.1 if q else 0.5)[2:] + [conc_stage('c07inst', 4, 2 if q else 30, 2, 15 if q else 40), conc_stage('c07quiet', 6, 2 if q else 30, 3, 15 if q else 40, 1),
@@ -210,8 +211,8 @@ REPOTESTS = {'kind': 'repotests', 'name': 'repotests'}
 
 def p_c01(q):
     if q:
-        return [mc_router('T'), REPOTESTS, gen_bfs('A', 2, sample=0.35), gen_bfs('B', 1), gen_sim('A', 8, 12), gogen('bytes', 60)]
-    return [mc_router('T'), mc_router('M', 'routerM'), gen_bfs('A', 2), gen_bfs('B', 2), gen_bfs('C', 2), gen_bfs('X', 2, sample=0.3),
+        return [mc_router('T'), REPOTESTS, gen_bfs('A', 2, sample=0.35), gen_bfs('B', 1), gen_bfs('Y', 3), gen_bfs('FC', 3, module='MC_RouterF'), gen_sim('A', 8, 12), gogen('bytes', 60)]
+    return [mc_router('T'), mc_router('M', 'routerM'), gen_bfs('A', 2), gen_bfs('B', 2), gen_bfs('C', 2), gen_bfs('X', 2, sample=0.3), gen_bfs('Y', 3), gen_bfs('FC', 3, module='MC_RouterF'),
             gen_sim('A', 12, 60), gen_sim('B', 12, 40, seedoff=1), gogen('bytes', 1500), gogen('mixed', 800, seedoff=1)]
 
 
@@ -222,7 +223,7 @@ def mc_tree(depth):
 
 def p_c02(q):
     if q:
-        return [mc_router('T'), mc_tree(4), gen_bfs('O', 4, module='MC_RouterO', consts={'L': 4}, sample=0.2), gen_bfs('O', 3, name='bfsO3', module='MC_RouterO', consts={'L': 4}, dump=True), gogen('addonly', 80)]
+        return [mc_router('T'), mc_tree(4), gen_bfs('O', 4, module='MC_RouterO', consts={'L': 4}, sample=0.08), gen_bfs('O', 3, name='bfsO3', module='MC_RouterO', consts={'L': 4}, dump=True), gogen('addonly', 80)]
     return [mc_router('T'), mc_tree(6), REPOTESTS, gen_bfs('O', 4, module='MC_RouterO', consts={'L': 5}, dump=True), gen_bfs('O', 2, name='bfsO2L6', module='MC_RouterO', consts={'L': 6}),
             gogen('addonly', 2000)]
 
@@ -237,8 +238,8 @@ def p_c03(q):
 
 def p_c04(q):
     if q:
-        return [mc_router('T'), REPOTESTS, gen_bfs('C', 2), gen_bfs('X', 2, sample=0.08), gen_sim('C', 8, 10)]
-    return [mc_router('T'), mc_router('M', 'routerM'), gen_bfs('C', 3, sample=0.4), gen_bfs('X', 2, sample=0.4), gen_bfs('A', 2, sample=0.5),
+        return [mc_router('T'), REPOTESTS, gen_bfs('C', 2), gen_bfs('X', 2, sample=0.08), gen_bfs('Y', 3), gen_sim('C', 8, 10)]
+    return [mc_router('T'), mc_router('M', 'routerM'), gen_bfs('C', 3, sample=0.4), gen_bfs('X', 2, sample=0.4), gen_bfs('A', 2, sample=0.5), gen_bfs('Y', 3),
             gen_sim('C', 14, 80), gogen('mixed', 1000)]
 
 
